@@ -47,6 +47,7 @@ def rule_inventory(rep, u):
     bops = enum_refs(w, 'BinaryConstraintOp')
     fops = enum_refs(w, 'FunctorOp')
     quals = enum_refs(w, 'RelationQualifier')
+    reprs = enum_refs(w, 'RelationRepresentation')
 
     def lam(fs, ptype, pred):
         return any(f.is_lambda and any(p['t'].replace('const ', '').strip(' &').endswith('::' + ptype) for p in f.d['params']) and pred(f) for f in fs)
@@ -63,6 +64,9 @@ def rule_inventory(rep, u):
         ('W7-atoms-of-counter-clauses', 'Counter' in wl and lam(w, 'Atom', lambda f: any(is_call(m, 'insert') for m in f.walk())), wf,
          'every atom of a clause using the auto-increment counter must be excluded'),
         ('W8-no-magic-qualifier-and-exclude-option', 'NO_MAGIC' in quals and 'magic-transform-exclude' in lits_w, wf, 'the no_magic qualifier / --magic-transform-exclude is not honoured'),
+        ('W10-unexpanded-eqrel-relations', 'EQREL' in reprs and 'getRepresentation' in calls_w, wf,
+         'an eqrel relation that was not expanded into explicit rules (the expansion runs only with the magic-transform option, not for the `magic` qualifier) '
+         'must be excluded: its adorned copy is a plain relation without the implicit closure'),
         ('W9-strongly-ignored-closure', 'getStronglyIgnoredRelations' in calls_w and 'visit' in calls_w and
          any(is_call(m, 'visit') and 'precedenceGraph' in expr_key(call_obj(m) or {'k': '?'}) for f in w for m in f.walk()), wf,
          'strongly ignored relations and what follows their dependents in clause bodies must be weakly ignored'),
@@ -81,6 +85,9 @@ def rule_inventory(rep, u):
 
 
 MUTANTS = [
+    ('eqrel-relations-adorned', SRC, '''        if (rel->getRepresentation() == RelationRepresentation::EQREL) {
+            weaklyIgnoredRelations.insert(rel->getQualifiedName());
+        }''', '', 'R1'),
     ('fd-relations-not-excluded', SRC, '''    for (auto* rel : program.getRelations()) {
         if (!rel->getFunctionalDependencies().empty()) {
             weaklyIgnoredRelations.insert(rel->getQualifiedName());
@@ -104,7 +111,7 @@ def analyse(rep):
     u, = facts.extract([(SRC, r'transform/MagicSet\.cpp$', r'.*')])
     rep.add_units([u])
     rule_inventory(rep, u)
-    rep.floor('R1-categories', len([o for o in rep.obligations if o['rule'] == 'R1-exclusion-inventory']), 12)
+    rep.floor('R1-categories', len([o for o in rep.obligations if o['rule'] == 'R1-exclusion-inventory']), 13)
 
 
 def run(tier='quick'):
